@@ -8,8 +8,14 @@ FAIL_VALUES = (2, 3, 4, 5, 6)       # mutex / variable callbacks failing with -1
 DEV = r"\r\n\0?=\s\x80a,"       # deviation alphabet: CR LF NUL ? = space 0x80 lower-case-letter comma
 
 
+PROBE_PROPS = ("C11", "C14", "C15", "C18")     # plans whose statements quantify over refusal runs of any length and do not carry the C12 stutter monitor
+
+
 def mcx(tag, ring=1, asan=False, **kw):
     args = []
+    probe = kw.get("prop") in ("C11", "C14") or (kw.get("prop") in PROBE_PROPS and ring == 1 and (tag.startswith("duplex-r1-sh") or tag.startswith("hold-")))
+    if probe and (kw.get("refuse_write") or kw.get("refuse_read")) and "refusal_probe" not in kw:
+        kw["refusal_probe"] = 1     # follow the all-refusing continuation wherever a refusal-only call changed parser state (engine/world.c refusal_run_probe)
     for k, v in kw.items():
         flag = "--" + k.replace("_", "-")
         if k in ("D",):
@@ -45,6 +51,10 @@ def c01_shards(tier):
                       max_name=mn, max_args=(cap if quick else cap + 1) if cap <= 7 else 3, D=D, dev=DEV, lines=lines, crlf=1, blank=1, lower=0,
                       refuse_read=1, refuse_write=1, codes_W="OK,ERROR,NEXT,HOLD", codes_R="OK,DATA_OK,DATA_NEXT,ERROR", codes_U="OK,ERROR,LIST,HOLD",
                       codes_T="OK,DATA_OK,ERROR", max_inv=1, act="hold", mon="C01"))
+    # cat_init called again on the used object at any point (mid-line, mid-response, while held): the bytes that follow are a new line
+    for tn, t, alpha in (("ambig", T_AMBIG, "+TABZ"), ("impl", T_IMPL, "+DOX")):
+        sh.append(mcx("lines-%s-reinit" % tn, prop="C01", table=t, cap=6, shared=0, name_alpha=alpha, args_alpha="1", max_name=3, max_args=2, D=0, lines=2 if quick else 3, crlf=1, blank=0,
+                      refuse_read=1, refuse_write=1, codes_W="OK,HOLD", codes_R="DATA_OK", codes_U="OK,LIST", codes_T="OK", max_inv=1, act="hold,reinit", mon="C01,C15", liveness=1))
     # unrestricted short byte strings
     for cap in ([6] if quick else [6, 7]):
         sh.append(mcx("free-cap%d" % cap, prop="C01", table=T_AMBIG, cap=cap, gen_mode="free", free_alpha=r"AT+=?\r\0Z,", free_len=7 if quick else 9, lines=2,
@@ -83,7 +93,7 @@ PLANS["C01"] = p_c01
 ALLC_WU = "OK,ERROR,DATA_OK,DATA_NEXT,NEXT,HOLD,HEXIT_OK,HEXIT_ERR,LIST,-2,9"
 ALLC_RT = "OK,ERROR,DATA_OK,DATA_NEXT,NEXT,HOLD,LIST"
 ALLE = "OK,ERROR,DATA_OK,DATA_NEXT,NEXT,HEXIT_OK,HEXIT_ERR,LIST,-2,9"
-T_CODES = "+W:W;+V:W,vu1rw/w,vi1rw/w;+R:R,vu1rw/r,vu1ro/r;+N:R;+U:U;+T:T,vu1rw@x,vi1ro,D=dd;+M:T||+e:R,vu1ro/r,vi1rw;+f:T,vu1ro,vx1wo@y,D=ee;+g:R;+o:R,o"
+T_CODES = "+W:W;+V:W,vu1rw/w,vi1rw/w;+R:R,vu1rw/r,vu1ro/r;+N:R;+U:U;+T:T,vu1rw@x/r,vi1ro/r,D=dd;+M:T||+e:R,vu1ro/r,vi1rw;+f:T,vu1ro/r,vx1wo@y,D=ee;+g:R;+o:R,o"
 
 
 def c10_shards(tier, mon="C10", prop="C10"):
@@ -103,6 +113,12 @@ def c10_shards(tier, mon="C10", prop="C10"):
                 sh.append(mcx("codes-evt-tok%d-sh%d-ub%d" % (tok, shared, ub), prop=prop, table=T_CODES, cap=40, shared=shared, ubuf=ub, name_alpha="+U", max_name=2, suffix_mask=1,
                               lines=1, refuse_read=1, refuse_write=1, codes_U="OK,HOLD", ecodes_R=ALLE, ecodes_T=ALLE, max_inv=inv, tok=tok, varcb_fail=1,
                               ev="+e:R,+f:T,+g:R,+o:R", act="trigger,hold", trig_budget=2, mon=mon))
+    # token mode 2: every other invocation hands back an empty response (DATA_NEXT / DATA_OK must still emit the empty line)
+    for nm, alpha, sm in (("R", "+RN", 2), ("T", "+TM", 8)):
+        sh.append(mcx("codes-cmd-%s-emptytok" % nm, prop=prop, table=T_CODES, cap=40, shared=0, name_alpha=alpha, max_name=2, args_alpha="1,", max_args=3, suffix_mask=sm, lines=1,
+                      refuse_read=1, refuse_write=1, codes_R=ALLC_RT, codes_T=ALLC_RT, max_inv=inv, tok=2, varcb_fail=1, act="hold", mon=mon))
+    sh.append(mcx("codes-evt-emptytok", prop=prop, table=T_CODES, cap=40, shared=1, name_alpha="+U", max_name=2, suffix_mask=1, lines=1, refuse_read=1, refuse_write=1, codes_U="OK",
+                  ecodes_R=ALLE, ecodes_T=ALLE, max_inv=inv, tok=2, varcb_fail=1, ev="+e:R,+f:T,+g:R", act="trigger", trig_budget=2, mon=mon))
     # variable callbacks failing with -1, 256, 65536, INT_MIN, 2 instead of 1 (any non-zero value is a failure)
     for fv in FAIL_VALUES:
       for nm, alpha, sm in (("W", "+WV", 4), ("R", "+RN", 2)):
@@ -137,7 +153,7 @@ def duplex(tag, ring, shared, budget, prop, mon, extra=None, asan=False):
 
 # A small separate unsolicited buffer while the command machine's cursor is far beyond its size
 # (long response text, long argument list); two-variable events.
-T_DUPBIG = "+SSSSSSSSSSSS:R,vu1rw,vi1ro;+H:W,vu1rw,vu1rw,vu1rw;Z:U||+u:vu1ro,vu1ro;+h:R,vu1ro,vi1ro;+d"
+T_DUPBIG = "+SSSSSSSSSSSS:R,vu1rw,vi1ro;+H:W,vu1rw,vu1rw,vu1rw;Z:U||+u:vu1ro,vu1ro;+h:R,o,vu1ro,vi1ro;+d"   # +h is only_test: that flag gates input requests, not events
 
 
 def duplex_cursor(tag, ring, prop, mon, budget=2, extra=None, asan=False):
@@ -236,7 +252,7 @@ def p_c12(tier):
         for scr in ((0, 1) if rr < 4 else (0,)):
             sh.append(mcx("noread%d-scribble%d" % (rr, scr), prop="C12", table=T_AMBIG, cap=6, name_alpha="+TABZ", args_alpha="1A", max_name=3, max_args=7, D=1 if scr else 0, dev=DEV,
                           lines=2, crlf=1, blank=1, refuse_read=rr, refuse_write=1, scribble=scr, codes_W="OK,ERROR", codes_R="OK,DATA_OK", codes_U="OK,ERROR", codes_T="OK", max_inv=1, mon="C12"))
-    sh += [s for s in c11_shards(tier, prop="C12", mon="C12") if s["tag"].endswith("-run") or "refuse" in s["tag"]]
+    sh += [s for s in c11_shards(tier, prop="C12", mon="C12") if s["tag"].endswith("-run") or "refuse" in s["tag"] or "cursor" in s["tag"]]
     for ring in (1, 2):
         sh.append(duplex_overlong("overlong-with-event-r%d" % ring, ring, ring % 2 + 1, "C12", "C12"))
         sh.append(duplex_overlong("overlong-with-event-sep-r%d" % ring, ring, 0, "C12", "C12"))
@@ -268,6 +284,14 @@ def c13_shards(tier, prop="C13", mon="C13"):
         sh.append(mcx("queue-bounded-r%d" % ring, ring=ring, prop=prop, table=T_Q, cap=12, shared=ring % 2, name_alpha="HK", max_name=1, args_alpha="1", max_args=0, suffix_mask=5, lines=1,
                       refuse_read=1, refuse_write=1, codes_W="HOLD,OK", codes_U="OK", ecodes_R="OK,DATA_OK,DATA_NEXT,HEXIT_OK,HEXIT_ERR", ecodes_T="OK,HEXIT_ERR", max_inv=1, tok=1,
                       ev=ev4 if ring < 3 else "+a:R,+b:R,+d:R", act="trigger,hold,queries", trig_budget=3, mon=mon))
+    # cat_init called again with events queued and in progress: the queue is empty afterwards
+    for ring in (1, 2):
+        sh.append(mcx("queue-reinit-r%d" % ring, ring=ring, prop=prop, table=T_Q, cap=12, shared=ring % 2, gen_mode="none", refuse_write=1,
+                      ecodes_R="OK,DATA_OK,DATA_NEXT", ecodes_T="OK", max_inv=1, tok=1, ev="+a:R,+b:R,+d:R", act="trigger,queries,reinit", trig_budget=3, mon=mon))
+    # a (non-re-entrant) mutex configured: handlers ask the unprotected queries while cat_service holds the lock
+    sh.append(mcx("queue-bounded-r2-mutex", ring=2, prop=prop, table=T_Q, cap=12, shared=0, name_alpha="HK", max_name=1, args_alpha="1", max_args=0, suffix_mask=5, lines=1,
+                  refuse_read=1, refuse_write=1, codes_W="HOLD,OK", codes_U="OK", ecodes_R="OK,DATA_OK", ecodes_T="OK", max_inv=1, tok=1,
+                  ev="+a:R,+b:R,+d:R", act="trigger,hold,queries", trig_budget=2, mutex=1, mon=mon))
     # (ii) with command traffic (a held command and an answering one)
     for ring in (1, 2, 3):
         for shared in (0, 1):
@@ -314,6 +338,15 @@ def c14_shards(tier, prop="C14", mon="C14"):
     for rw in NO_VALUES:
         sh.append(mcx("hold-U-refuse%d" % rw, ring=1, prop=prop, table=T_HOLD, cap=16, shared=0, name_alpha="+U", max_name=2, args_alpha="1", max_args=1,
                       suffix_mask=1, lines=2, refuse_read=1, refuse_write=rw, codes_U="HOLD,OK", ecodes_R="OK,HEXIT_ERR", max_inv=1, tok=1, ev="+e:R,+x:R", act="trigger,hold", trig_budget=1, mon=mon))
+    # hold entered on a later invocation of a read / test handler (after DATA_NEXT or NEXT), then released
+    for nm, alpha, sm in (("R", "+R", 2), ("T", "+T", 8)):
+        sh.append(mcx("hold-%s-late" % nm, ring=1, prop=prop, table=T_HOLD, cap=16, shared=0, name_alpha=alpha, max_name=2, args_alpha="1", max_args=1,
+                      suffix_mask=sm, lines=2, refuse_read=1, refuse_write=1, codes_R="DATA_NEXT,NEXT,HOLD,DATA_OK", codes_T="DATA_NEXT,NEXT,HOLD,OK", ecodes_R="OK,HEXIT_ERR", max_inv=2, tok=1,
+                      ev="+e:R", act="trigger,hold", trig_budget=1, mon=mon))
+    # cat_init called again at any point, also while held and after a release request: no hold, no owed result code, no queued event survives
+    for nm, alpha, sm in (("U", "+U", 1), ("R", "+R", 2)):
+        sh.append(mcx("hold-%s-reinit" % nm, ring=1, prop=prop, table=T_HOLD, cap=16, shared=0, name_alpha=alpha, max_name=2, args_alpha="1", max_args=1,
+                      suffix_mask=sm, lines=2, refuse_read=1, refuse_write=1, codes_U="HOLD,OK", codes_R="HOLD,DATA_OK", ecodes_R="OK,HEXIT_OK", max_inv=1, tok=1, ev="+e:R,+x:R", act="trigger,hold,reinit", trig_budget=1, mon=mon))
     # the same with a mutex interface configured (no fault injection): a spurious or repeated release must leave the lock balanced
     for nm, alpha, sm in (("W", "+W", 4), ("U", "+U", 1)):
         sh.append(mcx("hold-%s-mutex" % nm, ring=1, prop=prop, table=T_HOLD, cap=16, shared=0, name_alpha=alpha, max_name=2, args_alpha="1", max_args=1,
@@ -343,6 +376,10 @@ def p_c15(tier):
         if "cap6-sh0-l2d1" in s["tag"] or "free" in s["tag"]:
             a = list(s["args"]); a[a.index("--mon") + 1] = "C15"; a[a.index("--prop") + 1] = "C15"
             sh.append({"tag": "live-" + s["tag"], "bin": s["bin"], "args": a + ["--liveness", "1"]})
+    # command lists and responses at exact / one-short capacities, long names: the eager driver reports a parser that never becomes quiescent
+    sh += sw_shards("describe", "C15", tier, 8, "--family", "shapes", "--pairs", 1, tagp="shapes")
+    sh += sw_shards("bounds", "C15", tier, 4, "--family", "names", tagp="names")
+    sh += sw_shards("bounds", "C15", tier, 4, "--family", "format", tagp="format")
     return {"shards": sh, "require": ["ok_repeat_checked", "ev_silent", "ev_done", "lines_done"],
             "technique": "explicit-state model checking: OK-is-stable checked on every OK state; liveness by following the quiet eager continuation from every reachable state (cycle detection + distance bound)",
             "bounds": "state spaces of the duplex, queue (fixpoint), hold and lines scenarios",
@@ -423,6 +460,12 @@ def c20_shards(tier):
         sh.append(mcx("history-events-r%d" % ring, ring=ring, prop="C20", table=T_HIST + "||+e:vu1ro;+f:R", cap=8, shared=shared, name_alpha="+SRUA", max_name=3, args_alpha="1", max_args=1,
                       D=0, lines=0, crlf=1, blank=1, refuse_read=1, refuse_write=1, codes_W="OK", codes_R="DATA_OK", codes_U="OK", codes_T="DATA_OK", ecodes_R="DATA_OK,OK",
                       max_inv=1, ev="+e:R,+f:R", h_trigger=1, mon="C20"))
+    # cat_init called again between and inside lines: what follows is answered as on a fresh object
+    sh.append(mcx("history-reinit", prop="C20", table=T_HIST, cap=8, shared=1, name_alpha="+SRUDA", max_name=3, args_alpha="1", max_args=2, D=0, lines=3, crlf=1, blank=1, lower=0,
+                  refuse_read=0, refuse_write=0, codes_W="OK,ERROR", codes_R="DATA_OK", codes_U="OK,LIST", codes_T="DATA_OK", max_inv=1, act="reinit", mon="C20"))
+    # what a variable write callback is told (write_size) must not depend on earlier lines: read-only string first, writable number second
+    sh.append(mcx("history-rostring", prop="C20", table="+S:W,vs3ro/w,vu1rw/w;+U:U", cap=12, shared=0, name_alpha="+SU", max_name=2, args_alpha='"1,', max_args=6, D=0, lines=3, crlf=0, blank=0,
+                  refuse_read=0, refuse_write=0, codes_W="OK", codes_U="OK", max_inv=1, varcb_fail=0, mon="C20"))
     # hold scenario: release requests made while not held (event handler return codes, API calls) followed by lines that hold
     sh += [dict(s, tag="history-" + s["tag"]) for s in c14_shards(tier, prop="C20", mon="C20,C14") if s["tag"] in ("hold-U-r1", "hold-R-r1", "hold-W-r2")]
     return sh
@@ -495,6 +538,10 @@ def p_c02(tier):
         sh.append(mcx("search-with-events-r%d" % ring, ring=ring, prop="C02", table="+AB:U;+CD:UR,vu1rw;+EF:UW;+EG:U;Z:U||+t:T,vu1ro,D=d;+n:T,D=n", cap=12, shared=ring - 1, name_alpha="+ACEBFZ", max_name=3,
                       args_alpha="1", max_args=1, suffix_mask=7, lines=1, refuse_read=1, refuse_write=1, codes_U="OK", codes_R="DATA_OK", codes_W="OK", ecodes_T="DATA_OK", max_inv=1,
                       ev="+t:T,+t:R,+n:T", act="trigger", trig_budget=2, mon="C02"))
+    # cat_init called again at any point of a line (also in the middle of the name search), then further lines
+    for tn, t, alpha in (("impl", T_IMPL, "+DOX"), ("ambig", T_AMBIG, "+TABZ")):
+        sh.append(mcx("search-with-reinit-%s" % tn, prop="C02", table=t, cap=8, shared=1, name_alpha=alpha, max_name=3, args_alpha="1", max_args=1, suffix_mask=15, lines=2, refuse_read=1, refuse_write=0,
+                      codes_U="OK", codes_R="DATA_OK", codes_W="OK", codes_T="OK", max_inv=1, act="reinit", mon="C02"))
     return {"shards": sh, "require": ["runs", "implicit_hits", "ambiguous_lf", "ambiguous_eq", "notfound", "test_forms"],
             "technique": "exhaustive enumeration of descriptors and typed names on the real parser, compared with a reference transcription of the resolution rule",
             "bounds": "all tables of 1..%d commands named over {A,B}^(1..3) x every disable subset x optional implicit-write member x all typed names {A,B}^(1..4) x 4 suffixes; "
@@ -516,6 +563,8 @@ def p_c04(tier):
         sh.append(duplex_overlong("write-with-failing-events-r%d" % ring, ring, ring % 2 + 1, "C04", "C04", extra=dict(cap=12, max_args=6, lines=1, act="trigger", trig_budget=2, ev="+d:R,+f:R,+s:R", varcb_fail=1, h_trigger=0)))
     # digit counts at and around 2^8, 2^9, 2^16 and 2^17 (counters narrower than the buffer capacity)
     sh += sw_shards("numeric", "C04", tier, 12, "--family", "huge", tagp="huge")
+    # implicit-write command with numeric variables: the argument text is everything after the name ('=' included)
+    sh += sw_shards("numeric", "C04", tier, 12, "--family", "implicit", "--maxlen", 4 if quick else 5, tagp="implicit")
     return {"shards": sh, "require": ["runs", "wvar_ok", "wvar_err"],
             "technique": "exhaustive enumeration of argument texts on the real parser; acceptance decided on the text by arbitrary-precision comparison in the reference",
             "bounds": "all texts <=%d over 13 symbols for INT/UINT/HEX x width 1,2,4; boundary family: (2^7,2^8,2^15,2^16,2^31,2^32,2^63,2^64,10^19,10^20)+-3 and q*2^64+r (q<=16), "
@@ -529,6 +578,8 @@ PLANS["C04"] = p_c04
 def p_c05(tier):
     sh = sw_shards("buffers", "C05", tier, 48)
     sh += sw_shards("buffers", "C05", tier, 8, "--family", "residue", tagp="residue")
+    # valid texts of exactly capacity-3 .. capacity+2 bytes x every line ending and CR position x every layout
+    sh += sw_shards("buffers", "C05", tier, 4, "--family", "capfit", tagp="capfit")
     for ring in (1, 2):
         sh.append(mcx("bufwrite-with-events-r%d" % ring, ring=ring, prop="C05", table="+V:W,vb2rw,vs3rw,vb1rw||+u:vu1ro,vu1ro", cap=16, shared=ring % 2 + 1, name_alpha="+V", max_name=2,
                       args_alpha="A1,\"", max_args=6, suffix_mask=4, lines=1, refuse_read=1, refuse_write=1, codes_W="OK", max_inv=1, ev="+u:R", act="trigger", trig_budget=2, mon="C05"))
@@ -638,6 +689,7 @@ def p_c03(tier):
     sh += sw_shards("buffers", "C03", tier, 32 if quick else 64, "--lite", 1 if quick else 0, asan=True, tagp="asan-buffers")
     sh += sw_shards("args", "C03", tier, 36, "--lite", 1 if quick else 0, asan=True, tagp="asan-args")
     sh += sw_shards("buffers", "C03", tier, 8, "--family", "residue", asan=True, tagp="asan-residue")
+    sh += sw_shards("buffers", "C03", tier, 4, "--family", "capfit", asan=True, tagp="asan-capfit")
     sh += sw_shards("numeric", "C03", tier, 16, "--family", "bounds", asan=True, tagp="asan-numeric")
     sh += sw_shards("numeric", "C03", tier, 13, "--family", "all", "--maxlen", 4 if quick else 5, asan=True, tagp="asan-numeric")
     sh += sw_shards("describe", "C03", tier, 8, "--family", "vars", "--maxlen", 2, asan=True, tagp="asan-describe")
